@@ -64,7 +64,7 @@ inductive Ev where
   | unchoke (a : Nat) (chosen : Option Nat)
   | interested (a : Nat)
   | notInterested (a : Nat) (chosen : Option Nat)
-  | have (a : Nat) (i : Nat)
+  | have (a : Nat) (i : Nat) (chosen : Option Nat)
   | bitfield (a : Nat) (bits : Pieces) (chosen : Option Nat)
   | pieceDone (a : Nat) (chosen : Option Nat)
   | pieceCancel (a : Nat) (chosen : Option Nat)
@@ -129,20 +129,24 @@ def mstep (s : MState) : Ev → Out
     | some p =>
       .ok { s with peers := setPeer s { p with interested := false } }
         (if !p.amInterested && p.pieceIndex.isNone && chosen.isNone then .prepareKill else .ignore)
-  | .have a i =>
+  | .have a i chosen =>
     match findPeer s a with
     | none => .panic "PeerNotFound"
     | some p =>
       if i ≥ p.pieces.length then .panic "index out of bounds" else
+      -- the bit is set, then the chooser is consulted (`chosen`), then `Peer::handle_have`
       let p1 := { p with pieces := p.pieces.set i true }
-      if s.statuses.getD i .have = .missing ∧ p.amInterested = false then
-        if p.choked = false ∧ p.pieceIndex = none then
-          .ok { statuses := modifyAt s.statuses i (fun _ => .reserved 1),
-                peers := setPeer s { p1 with pieceIndex := some i, amInterested := true, rx := some i } }
-            (.request i true)
-        else
-          .ok { s with peers := setPeer s { p1 with amInterested := true } } .sendInterested
-      else .ok { s with peers := setPeer s p1 } .ignore
+      match chosen with
+      | some c =>
+        if p.amInterested = false then
+          if p.choked = false ∧ p.pieceIndex = none then
+            .ok { statuses := modifyAt s.statuses c incr,
+                  peers := setPeer s { p1 with pieceIndex := some c, amInterested := true, rx := some c } }
+              (.request c true)
+          else
+            .ok { s with peers := setPeer s { p1 with amInterested := true } } .sendInterested
+        else .ok { s with peers := setPeer s p1 } .ignore
+      | none => .ok { s with peers := setPeer s p1 } .ignore
   | .bitfield a bits chosen =>
     match findPeer s a with
     | none => .panic "PeerNotFound"
@@ -192,7 +196,7 @@ def Enabled (s : MState) : Ev → Prop
   | .add a n => findPeer s a = none ∧ n = s.statuses.length
   | .pieceDone a _ => ∃ p y, findPeer s a = some p ∧ p.rx = some y
   | .pieceCancel a _ => ∃ p y, findPeer s a = some p ∧ p.rx = some y ∧ s.statuses.getD y .missing = .have
-  | .have a i => (∃ p, findPeer s a = some p) ∧ i < s.statuses.length ∧
+  | .have a i _ => (∃ p, findPeer s a = some p) ∧ i < s.statuses.length ∧
       ∀ p, findPeer s a = some p → p.pieces.length = s.statuses.length
   | .bitfield a bits _ => (∃ p, findPeer s a = some p) ∧ bits.length = s.statuses.length ∧
       ∀ p, findPeer s a = some p → p.pieces.length = s.statuses.length
